@@ -93,9 +93,15 @@ func exchangeMain(args []string) {
 			// the system source FAILS at the k-th read of this exchange (k = 1: nonce, 2: new_nonce, 3..: DH exponent and
 			// whatever else is drawn): the exchange may end in an error or a panic, but nothing the server receives may be
 			// a value that was not drawn (a zero or stale secret sent on).  Followed by a new exchange.
+			// The failure is a hiccup (one read), lasts three reads (what a retry loop might sit out) or the rest of the
+			// exchange.
 			k := 1 + (i/6)%5
+			nfail := []int{1, 1 << 30, 3, 2}[(i/6)%4]
 			fname = "read-fails@" + strconv.Itoa(k)
-			rec.failRead(i, k)
+			if nfail != 1 {
+				fname += "x" + map[int]string{1 << 30: "all", 3: "3", 2: "2"}[nfail]
+			}
+			rec.failRead(i, k, nfail)
 		}
 		p, q := smallPrime(r), smallPrime(r)
 		for p.Cmp(q) == 0 {
